@@ -10,7 +10,7 @@ import convlib as cl
 ID = "C02"
 COQ_PROPS = "Props/C02.v"
 COQ_EXTRA_TARGETS = ["Conv/CorrGeom.vo"]
-THEOREMS = ["C02_values", "C02_geometry", "C02_geometry_sources", "C02_invariance", "C02_dtype", "C02_dtype_lattice"]
+THEOREMS = ["C02_values", "C02_values_rescaled", "C02_geometry", "C02_geometry_sources", "C02_geometry_irregular", "C02_invariance", "C02_dtype", "C02_dtype_lattice"]
 ALLOWED_AXIOMS = []
 TABLES = ["t_stack", "t_time", "t_conv"]
 RULE = ("complete S x T x V grids (quick: S <= 3, T, V <= 2; thorough: S <= 5, T, V <= 3) x orientation {axial, sagittal, coronal, in-plane "
@@ -36,9 +36,15 @@ ASSUMPTIONS = [
     "passes value x common denominator to the model, which only moves values around) and stored values fit BitsStored; the files of a "
     "series may differ in rescale, BitsStored, signedness and BitsAllocated (8 / 16 / 32-signed)",
     "dtype lattice int8, uint8, int16, uint16, int32, float32, float64 (uint32 and wider are outside the model)",
-    "C02_geometry: the files' positions lie on a line with equal gaps (hypothesis on_line; derived in C02_geometry_sources from: shared "
-    "orientation / spacing, displacement proportional to the slice indicator, positions in exact arithmetic progression); the code itself only "
-    "checks spacing to 4 % and takes the slice column from the first two sorted files",
+    "C02_geometry: the files' positions lie on a line with equal gaps (hypothesis on_line; derived in C02_geometry_sources, for every reachable "
+    "stack, from: sorter position = slice indicator (positions_ok; both read from the same DicomWrapper, compared to 2^-30 on every case), shared "
+    "orientation / spacing, displacement proportional to the slice indicator, positions in exact arithmetic progression)",
+    "the stack ACCEPTS slice gaps that differ by up to 4 % and takes the slice column from the first two sorted files only: for such series the "
+    "affine is NOT exact; C02_geometry_irregular gives the exact position error of slice s, (sum_{j<s} (gap_j - gap_0)) x displacement direction "
+    "(kernel-checked witness C02_geometry_irregular_ex: slices at 1, 3, 5.06 -> the last slice is mapped 0.06 off); the generators use exactly "
+    "equidistant slices and the geometry oracle is stated for those",
+    "the DICOM rescale is part of the model as a relation (Conv/Geom.v rescaled_ok: g_pix = slope x stored + intercept, in units of 1/den), tied to "
+    "nibabel's get_unscaled_data / scale_factors on every case; C02_values_rescaled states the output values in terms of the stored pixels",
     "float rounding on non-dyadic geometry is not modelled (compared to 2^-30 only)",
 ]
 
